@@ -862,7 +862,49 @@ func c09Merge(p *Prog, rp *Report) *Rule {
 				problems = append(problems, fmt.Sprintf("%v.Update(%v) = %s, want %s", c.ro, c.ao, got, want))
 			}
 		}
-		fillProblems(r, "control.Paragraph.Update", p.Pos(upd.Pos()), problems, "receiver's fields in their order, then new keys in argument order; argument values override")
+		// two updates of one receiver whose Order has spare capacity (as a list grown by append has): the results
+		// must not share storage with each other or with the receiver
+		{
+			m := NewMachine(p, nil)
+			installStringModels(m)
+			st := initState(m, "control")
+			recv := mk(st, []string{"A", "B"}, map[string]string{"A": "1", "B": "2"})
+			arr := &ArrayV{E: []Val{"A", "B", "", "", "", ""}}
+			aid := st.alloc(types.NewArray(types.Typ[types.String], 6), arr)
+			recv.F[fieldIndex(structOf(pt), "Order")] = SliceV{Obj: aid, Len_: 2, Cap: 6}
+			rid := st.alloc(pt, recv)
+			before := deepRender(st, Ptr{Obj: rid}, 0)
+			var ids []int
+			var first string
+			okRun := true
+			for i, arg := range []*StructV{mk(st, []string{"Bar"}, map[string]string{"Bar": "b"}), mk(st, []string{"Baz", "Qux"}, map[string]string{"Baz": "z", "Qux": "q"})} {
+				st.Status = stRun
+				st.Frames = nil
+				st.push(upd, []Val{Ptr{Obj: rid}, arg}, nil)
+				out := m.Run(st)
+				if len(out) != 1 || out[0].Status != stRet {
+					problems = append(problems, "undecided: "+retDesc(out))
+					okRun = false
+					break
+				}
+				id := st.alloc(pt, st.Ret)
+				ids = append(ids, id)
+				if i == 0 {
+					if got, why := paraOf(st, p, Ptr{Obj: id}); why == "" {
+						first = got.String()
+					}
+				}
+			}
+			if okRun {
+				if got, why := paraOf(st, p, Ptr{Obj: ids[0]}); why == "" && got.String() != first {
+					problems = append(problems, fmt.Sprintf("[A B].Update([Bar]) gave %s; after a second Update([Baz Qux]) of the same receiver that first result reads %s: the results share the receiver's Order array", first, got))
+				}
+				if after := deepRender(st, Ptr{Obj: rid}, 0); after != before {
+					problems = append(problems, fmt.Sprintf("Update changes its receiver: %s became %s", clip(before, 160), clip(after, 160)))
+				}
+			}
+		}
+		fillProblems(r, "control.Paragraph.Update", p.Pos(upd.Pos()), problems, "receiver's fields in their order, then new keys in argument order; argument values override; results of two updates share no storage")
 	}
 	{
 		var problems []string
